@@ -127,6 +127,12 @@ func (fc *FnCtx) strLit(s string) string {
 }
 
 func (fc *FnCtx) zero(ty types.Type) Val {
+	if _, ok := ty.(*types.TypeParam); ok {
+		// the zero value of a type parameter: one unknown constant of the parameter's sort
+		fc.sortOf(ty)
+		fc.declareOnce("tparam.zero", "(declare-fun tparam.zero () TParam)")
+		return Val{T: "tparam.zero", Ty: ty}
+	}
 	switch u := ty.Underlying().(type) {
 	case *types.Basic:
 		switch {
